@@ -409,6 +409,9 @@ func lexString(l *lexer) stateFn {
 	open := l.next()
 	l.emit(tokenStringOpen)
 	closePos := strings.Index(l.input[l.pos:], open)
+	if open == `"` {
+		closePos = closingDoubleQuote(l.input[l.pos:])
+	}
 	if closePos < 0 {
 		return l.errorf("unclosed string")
 	}
@@ -454,6 +457,51 @@ func lexString(l *lexer) stateFn {
 	l.emit(tokenStringClose)
 
 	return lexExpression
+}
+
+// closingDoubleQuote returns the offset in s, the rest of the input after an opening
+// double quote, of the quote that closes that string, or -1. Quotes inside an
+// interpolation delimit strings nested in it ("a #{ b ~ "c" } d") and are skipped.
+func closingDoubleQuote(s string) int {
+	for i := 0; i < len(s); i++ {
+		if s[i] == '"' {
+			return i
+		}
+		if !strings.HasPrefix(s[i:], delimOpenInterpolate) {
+			continue
+		}
+		depth := 0
+		closed := false
+		for i += len(delimOpenInterpolate); i < len(s) && !closed; i++ {
+			switch s[i] {
+			case '{':
+				depth++
+			case '}':
+				if depth == 0 {
+					closed = true
+					i--
+				} else {
+					depth--
+				}
+			case '\'':
+				j := strings.IndexByte(s[i+1:], '\'')
+				if j < 0 {
+					return -1
+				}
+				i += j + 1
+			case '"':
+				j := closingDoubleQuote(s[i+1:])
+				if j < 0 {
+					return -1
+				}
+				i += j + 1
+			}
+		}
+		if !closed {
+			return -1
+		}
+	}
+	return -1
 }
 
 func lexOpenParens(l *lexer) stateFn {
